@@ -473,6 +473,23 @@ def scriptedWrapped : Code DExt where
     | other => other
   query := (scripted "W").query
 
+/-- the same behaviour packaged WITHOUT the optional entry points (`ContractWrapper::new_with_empty(exec, inst, query)`):
+`reply`, `sudo` and `migrate` are errors raised by the wrapper before any contract code runs — the scripted contract is not
+entered, so nothing is put on the out-of-band trace (note `!noentry`, dropped by `addTrace`) -/
+def scriptedBare : Code DExt where
+  run := fun en env ch own =>
+    match en with
+    | .reply _ => (.err, "!noentry")
+    | .sudo _ => (.err, "!noentry")
+    | .migrate _ => (.err, "!noentry")
+    | _ =>
+      match (scripted "N").run en env ch own with
+      | (.ok (resp, own'), note) =>
+        if resp.msgs.any (fun sm => match sm.msg with | .ext .custom _ => true | _ => false) then (.panic, note)
+        else (.ok (resp, own'), note)
+      | other => other
+  query := (scripted "N").query
+
 def fmtTraceEntry (t : TraceEntry) : String :=
   let (tag, h, notes) := match t.note.splitOn "|" with
     | tag :: h :: rest => (tag, h, "|".intercalate rest)
@@ -590,7 +607,7 @@ def outcomeStr {α} (o : Outcome α) (f : α → String) : String :=
   | .outOfFuel => "out-of-fuel"
 
 def addTrace (app : DApp) (tr : Trace) : DApp :=
-  { app with trace := app.trace ++ tr.map fmtTraceEntry }
+  { app with trace := app.trace ++ (tr.filter fun t => t.note != "!noentry").map fmtTraceEntry }
 
 def noExtQuery : ExtKind → DChain → Block → Val → Outcome Val := fun _ _ _ _ => .err
 
@@ -614,8 +631,8 @@ def stepWasm (st : WState) (line : String) : WState × String :=
     let storeCode (id : Nat) (creator : String) (tag : String) : WState × String :=
       let chk := (st.chks.lookup id).getD []
       let cd : CodeData := { creator := creator, checksum := chk, sourceId := app.codeBase.length }
-      let code := if tag == "W!" then scriptedWrapped else scripted tag
-      let tag := if tag == "W!" then "W" else tag
+      let code := if tag == "W!" then scriptedWrapped else if tag == "N!" then scriptedBare else scripted tag
+      let tag := if tag == "W!" then "W" else if tag == "N!" then "N" else tag
       let app' : DApp := { app with codes := Registry.insert app.codes id cd, codeBase := app.codeBase ++ [code],
                                      ch := { app.ch with ext := { app.ch.ext with
                                        tags := (id, tag) :: (id + 1000000, creator ++ "," ++ hex chk) :: app.ch.ext.tags } } }
@@ -664,6 +681,11 @@ def stepWasm (st : WState) (line : String) : WState × String :=
     | "store-w" =>
       match Registry.storeCode ⟨app.codes, app.codeBase.length⟩ (real "creator") (fun id => (st.chks.lookup id).getD []) with
       | .ok (id, _) => storeCode id (real "creator") "W!"
+      | .panic => (st, "panic")
+      | _ => (st, "err")
+    | "store-n" =>
+      match Registry.storeCode ⟨app.codes, app.codeBase.length⟩ (real "creator") (fun id => (st.chks.lookup id).getD []) with
+      | .ok (id, _) => storeCode id (real "creator") "N!"
       | .panic => (st, "panic")
       | _ => (st, "err")
     | "store-as" =>
@@ -730,7 +752,7 @@ def stepWasm (st : WState) (line : String) : WState × String :=
       match parseCoins (a 2) with
       | some cs => (setApp st { app with ch := { app.ch with bank := Bank.setBalance app.ch.bank (real (a 1)) cs } }, "ok")
       | none => (st, "bad-op")
-    | "exec" =>
+    | "exec" | "exec-bare" =>
       match (items[2]?).bind (toMsg syms) with
       | some m =>
         let (r, ch', tr) := App.execute cfg app.block fuelMax app.ch (real (a 1)) m
